@@ -400,3 +400,7 @@ def run(chk, prog, tier):
     from . import c16, c14
     c16.check_fast_subset(chk, prog)
     c14.check_siblings(chk, prog)
+    # the Ge/Lt timestamp constraints of the delta decomposition must be evaluated as >= / < and reach the root subset
+    from . import join_common
+    join_common.check_constraint_eval(chk, prog)
+    join_common.check_root_headers(chk, prog)
